@@ -382,7 +382,21 @@ func (a *alone) exec(args [][]byte) ([]byte, model.Val, string) {
 func (a *alone) close() { a.conn.EOF(); a.cancel() }
 
 // sameReply compares replies; arrays of strings from set-valued commands are compared as multisets.
+// pubsubNamed: the command is PUBLISH or SUBSCRIBE under some case mapping (the cluster filter refuses
+// those by design; the property speaks of commands a cluster node accepts).
+func pubsubNamed(cmd string) bool {
+	for _, n := range []string{"publish", "subscribe"} {
+		if strings.EqualFold(cmd, n) || strings.ToLower(cmd) == n || strings.ToUpper(cmd) == strings.ToUpper(n) {
+			return true
+		}
+	}
+	return false
+}
+
 func sameReply(cmd string, a, b model.Val) bool {
+	if pubsubNamed(cmd) && b.K == model.Error {
+		return true // refused by the cluster filter: one error reply is all that is required
+	}
 	unordered := map[string]bool{"smembers": true, "keys": true, "hgetall": true, "hkeys": true, "hvals": true, "sunion": true, "sinter": true, "sdiff": true}
 	if a.K != b.K {
 		return false
@@ -462,6 +476,33 @@ func c14Programs(depth2 bool) (progs [][][]string, tmplOf [][]string) {
 			c := append([]string{nm}, t[1:]...)
 			progs = append(progs, [][]string{c})
 			tmplOf = append(tmplOf, t)
+		}
+	}
+	// command names spelled with the code points on which Unicode case folding and strings.ToLower
+	// disagree (U+0130 for i, U+017F for s, U+212A for k): a name check that folds differently from the
+	// dispatcher lets a command through a filter, or refuses one, in one mode only.  Includes the two
+	// commands the cluster filter refuses - spelled this way they are, for a standalone server, unknown
+	// commands - each followed by the plainly spelled PUBLISH / a read
+	fold := func(name string) []string {
+		var out []string
+		for _, r := range []struct{ from, to string }{{"I", "\u0130"}, {"i", "\u0130"}, {"S", "\u017f"}, {"s", "\u017f"}, {"K", "\u212a"}, {"k", "\u212a"}} {
+			if i := strings.Index(name, r.from); i >= 0 {
+				out = append(out, name[:i]+r.to+name[i+1:])
+			}
+		}
+		return out
+	}
+	for _, t := range append(append([][]string{}, templates...), []string{"SUBSCRIBE", "ch"}, []string{"PUBLISH", "ch", "m"}, []string{"subscribe", "ch"}, []string{"publish", "ch", "m"}) {
+		for _, nm := range fold(t[0]) {
+			c := append([]string{nm}, t[1:]...)
+			progs = append(progs, [][]string{c}, [][]string{c, {"GET", "k"}})
+			tmplOf = append(tmplOf, t, t)
+			if strings.EqualFold(t[0], "subscribe") {
+				for _, pn := range append(fold("PUBLISH"), fold("publish")...) {
+					progs = append(progs, [][]string{c, {pn, "ch", "m"}})
+					tmplOf = append(tmplOf, t)
+				}
+			}
 		}
 	}
 	// the empty command array
@@ -677,7 +718,8 @@ func c14Worker(tb []byte, progress func()) []byte {
 		}
 		if okSeed && len(rt.TakeFreePanics()) == 0 {
 			for ci, c := range prog {
-				_, want, sa := a.exec(h.B(c...))
+				// (the cluster side first: both managers live on one virtual clock, and the ten seconds
+				// that pass inside execSlow must have passed for the standalone server as well)
 				var got model.Val
 				var sl string
 				extra := 0
@@ -686,6 +728,7 @@ func c14Worker(tb []byte, progress func()) []byte {
 				} else {
 					_, got, sl = l.exec(h.B(c...))
 				}
+				_, want, sa := a.exec(h.B(c...))
 				slow("slow", sl)
 				res.Commands++
 				if ps := rt.TakeFreePanics(); len(ps) > 0 {
